@@ -2,135 +2,92 @@
 C05 — theorems about the Caddyfile adaptation of `handle_errors` (Adapt.lean).
 -/
 import CaddyModel.C05.Adapt
+import CaddyModel.C05.Lemmas
 
 namespace CaddyModel.C05
 
 /-! ### what the status arguments select -/
 
-/-- `Dxx` selects exactly the statuses D00 … D99 (in the error path, where the placeholder is set) -/
-theorem status_class_selects_its_hundred (b : UInt8) (hb : 48 ≤ b.toNat ∧ b.toNat ≤ 57) (r : Req) (c : Nat)
-    (h : r.replStatus = some c) :
-    evalMatcher (selMatcher ⟨[[b]], []⟩) r = .ok (decide (c / 100 = b.toNat - 48)) := by
-  have hd : C16.isDigit b = true := by
-    simp only [C16.isDigit, Bool.and_eq_true, decide_eq_true_eq, UInt8.le_iff_toNat_le]
-    exact ⟨by simpa using hb.1, by simpa using hb.2⟩
-  have h45 : (45 : UInt8).toNat = 45 := by rfl
-  have h43 : (43 : UInt8).toNat = 43 := by rfl
-  have hne : b ≠ 45 ∧ b ≠ 43 := by
-    constructor <;> (intro he; have := congrArg UInt8.toNat he; omega)
-  have hv : C16.digitsVal 0 [b] = b.toNat - 48 := by
-    unfold C16.digitsVal C16.digitsVal; omega
-  have hlt : b.toNat - 48 ≤ 9223372036854775807 := by omega
-  have ha : C16.atoi [b] = some ((b.toNat - 48 : Nat) : Int) := by
-    rw [C16.atoi.eq_def]
-    split
-    · rename_i heq; cases heq
-    · rename_i ds heq; simp at heq; exact absurd heq.1 hne.1
-    · rename_i ds heq; simp at heq; exact absurd heq.1 hne.2
-    · simp [hd, hv, hlt]
-  simp only [selMatcher, classRange, ha, evalMatcher, h, List.map_cons, List.map_nil, List.any_cons,
-    List.any_nil, Bool.or_false, List.contains_nil, Int.toNat_natCast]
-  congr 1
-  by_cases hc : c / 100 = b.toNat - 48
-  · simp only [hc, decide_true]
-    have : (b.toNat - 48) * 100 ≤ c ∧ c ≤ (b.toNat - 48) * 100 + 99 := by omega
-    simp [this.1, this.2]
+theorem class_range_is_hundred (v c : Nat) : (decide (v * 100 ≤ c) && decide (c ≤ v * 100 + 99)) = decide (c / 100 = v) := by
+  by_cases hc : c / 100 = v
+  · have : v * 100 ≤ c ∧ c ≤ v * 100 + 99 := by omega
+    simp [hc, this.1, this.2]
   · simp only [hc, decide_false]
-    by_cases h1 : (b.toNat - 48) * 100 ≤ c
-    · have : ¬ c ≤ (b.toNat - 48) * 100 + 99 := by omega
+    by_cases h1 : v * 100 ≤ c
+    · have : ¬ c ≤ v * 100 + 99 := by omega
       simp [h1, this]
     · simp [h1]
 
+/-- `Dxx` selects exactly the statuses D00 … D99 (in the error path, where the placeholder is set) -/
+theorem status_class_selects_its_hundred (b : UInt8) (r : Req) (c : Nat) (h : r.replStatus = some c) :
+    evalMatcher (selMatcher ⟨[[b]], []⟩) r = .ok (decide (c / 100 = b.toNat - 48)) := by
+  have hv : C16.digitsVal 0 [b] = b.toNat - 48 := by
+    unfold C16.digitsVal C16.digitsVal; omega
+  simp only [selMatcher, classRange, hv, evalMatcher, h, List.map_cons, List.map_nil, List.any_cons,
+    List.any_nil, Bool.or_false, List.contains_nil]
+  rw [class_range_is_hundred]
+
 /-- a code selects exactly itself -/
-theorem status_code_selects_itself (x : Bytes) (v : Int) (hx : C16.atoi x = some v) (r : Req) (c : Nat)
-    (h : r.replStatus = some c) :
-    evalMatcher (selMatcher ⟨[], [x]⟩) r = .ok (decide (v = (c : Int))) := by
-  simp only [selMatcher, codeVal, hx, evalMatcher, h, List.map_nil, List.any_nil, Bool.false_or,
-    List.map_cons, Option.getD_some]
+theorem status_code_selects_itself (x : Bytes) (r : Req) (c : Nat) (h : r.replStatus = some c) :
+    evalMatcher (selMatcher ⟨[], [x]⟩) r = .ok (decide (C16.digitsVal 0 x = c)) := by
+  simp only [selMatcher, codeVal, evalMatcher, h, List.map_nil, List.any_nil, Bool.false_or,
+    List.map_cons]
   congr 1
-  by_cases hv : v = (c : Int)
-  · subst hv; simp
+  by_cases hv : C16.digitsVal 0 x = c
+  · simp [hv]
   · simp only [hv, decide_false]
-    have : ((c : Int) == v) = false := by
-      simp only [beq_eq_false_iff_ne, ne_eq]
+    have : ((c : Int) == ((C16.digitsVal 0 x : Nat) : Int)) = false := by
+      simp only [beq_eq_false_iff_ne, ne_eq, Int.natCast_inj]
       exact fun h => hv h.symm
     simp [List.contains, List.elem, this]
 
 example : parseArgs [str "4xx", str "500", str "404"] ⟨[], []⟩ = some ⟨[str "4"], [str "500", str "404"]⟩ := by decide
 example : bytesToString (renderExpr ⟨[str "4"], [str "500", str "404"]⟩)
     = "{http.error.status_code} >= 400 && {http.error.status_code} <= 499 || {http.error.status_code} in [500, 404]" := by decide
+-- only digits: signs, letters, wrong lengths are refused by the adapter
 example : parseArgs [str "4XX"] ⟨[], []⟩ = none ∧ parseArgs [str "40"] ⟨[], []⟩ = none ∧
-    parseArgs [str "-xx"] ⟨[], []⟩ = none := by decide
+    parseArgs [str "-xx"] ⟨[], []⟩ = none ∧ parseArgs [str "+40"] ⟨[], []⟩ = none ∧
+    parseArgs [str "-12"] ⟨[], []⟩ = none := by decide
 
-/-! ### the directives of a `handle_errors <codes>` block keep their own matchers — they do not -/
+/-! ### the directives of a `handle_errors <codes>` block keep their own matchers -/
 
-/-- every block that has status arguments contains only matcher-less directives -/
-def innerMatchersSafe (blocks : List Block) : Bool :=
-  match parseBlocks blocks with
-  | none => true
-  | some ps => ps.all fun p => (p.1.classes.isEmpty && p.1.codes.isEmpty) || p.2.all (fun d => d.path.isNone)
+/-- **a body directive applies iff the status is selected AND its own matcher matches**: the route
+    the code builds for it (status expression in front of a subroute holding the directive's route
+    as it is) behaves, in every chain and for every request, like the one route the Caddyfile
+    describes — including when the status test is a matcher error. -/
+theorem handle_errors_directive_keeps_its_matcher (a : StatusArgs) (d : Dir) (k : K) (r : Req) (t : Trace) :
+    runRoute (dirRoute a d) k r t = runRoute (dirRouteIntended a d) k r t := by
+  unfold dirRoute dirRouteIntended
+  by_cases he : (a.classes.isEmpty && a.codes.isEmpty) = true
+  · simp [he]
+  · simp only [he, Bool.false_eq_true, if_false]
+    cases hp : d.path with
+    | none => rfl
+    | some p =>
+      simp only [runRoute, anyMatch, List.isEmpty_cons, Bool.false_eq_true, if_false, evalAny, evalSet,
+        groupDone, markGroup, bne_self_eq_false, Bool.false_and, runHandlers]
+      cases hm : evalMatcher (selMatcher a) r with
+      | err st => rfl
+      | ok b =>
+        cases b with
+        | false => rfl
+        | true =>
+          rw [runHandler_sub_without_errors]
+          simp only [runRoutes, runRoute, dirSets, hp, anyMatch, List.isEmpty_cons, Bool.false_eq_true,
+            if_false, evalAny, evalSet, groupDone, markGroup, bne_self_eq_false, Bool.false_and, runHandlers]
 
 def wBlocks : List Block := [⟨[str "404"], [⟨some 1, 201⟩]⟩]
 
-/-
-FULL STATEMENT (false): ∀ blocks, adapt blocks = adaptIntended blocks — "a directive inside
-`handle_errors <codes> { … }` applies iff the status is selected AND its own matcher matches".
-`parseHandleErrors` assigns `MatcherSetsRaw = [{expression}]` to every route of the body: the
-`/a` of `respond /a 201` is gone, a 404 on /b is answered 201.
--/
-theorem handle_errors_inner_matchers_full_fails :
-    ∃ blocks s req, (serveAdapted (adapt blocks) s req).map (·.status)
-      ≠ (serveAdapted (adaptIntended blocks) s req).map (·.status) :=
-  ⟨wBlocks, 404, ⟨0, 0, 3, 0, [], none, none⟩, by decide⟩
-
-/-- the same witness spelled out: 404 on /b — the code answers 201, the Caddyfile says 404 -/
-theorem handle_errors_inner_matcher_dropped :
-    (serveAdapted (adapt wBlocks) 404 ⟨0, 0, 3, 0, [], none, none⟩).map (·.status) = some (some 201) ∧
+/-- `handle_errors 404 { respond /a 201 }`, a 404 on /b: the repaired adapter leaves the 404 alone
+    (as the Caddyfile says); BEFORE the repair `parseHandleErrors` assigned
+    `MatcherSetsRaw = [{expression}]` to every route of the body, the `/a` was gone and the
+    answer was 201. -/
+theorem handle_errors_inner_matcher_dropped_by_old_code :
+    (serveAdapted (adaptOld wBlocks) 404 ⟨0, 0, 3, 0, [], none, none⟩).map (·.status) = some (some 201) ∧
+    (serveAdapted (adapt wBlocks) 404 ⟨0, 0, 3, 0, [], none, none⟩).map (·.status) = some (some 404) ∧
     (serveAdapted (adaptIntended wBlocks) 404 ⟨0, 0, 3, 0, [], none, none⟩).map (·.status) = some (some 404) := by
   decide
 
-theorem blockRoutes_eq_intended (a : StatusArgs) (dirs : List Dir)
-    (h : ((a.classes.isEmpty && a.codes.isEmpty) || dirs.all (fun d => d.path.isNone)) = true) :
-    blockRoutes a dirs = blockRoutesIntended a dirs := by
-  unfold blockRoutes blockRoutesIntended
-  apply List.map_congr_left
-  intro d hd
-  by_cases he : (a.classes.isEmpty && a.codes.isEmpty) = true
-  · simp [he]
-  · have hall : dirs.all (fun d => d.path.isNone) = true := by
-      cases hh : (a.classes.isEmpty && a.codes.isEmpty) with
-      | true => exact absurd hh he
-      | false => simpa [hh] using h
-    have hp : d.path = none := by
-      have := List.all_eq_true.mp hall d hd
-      simpa using this
-    simp [he, hp]
-
-/-- … the partial statement that does hold: when no directive under a status list has a matcher of
-    its own, the adapted error routes are exactly the ones the Caddyfile describes. -/
-theorem handle_errors_inner_matchers_partial (blocks : List Block) (h : innerMatchersSafe blocks = true) :
-    adapt blocks = adaptIntended blocks := by
-  unfold adapt adaptIntended adaptWith
-  unfold innerMatchersSafe at h
-  cases hp : parseBlocks blocks with
-  | none => rfl
-  | some ps =>
-    rw [hp] at h
-    simp only
-    have : (ps.map fun p => blockRoutes p.1 p.2) = (ps.map fun p => blockRoutesIntended p.1 p.2) := by
-      apply List.map_congr_left
-      intro p hpm
-      exact blockRoutes_eq_intended p.1 p.2 (List.all_eq_true.mp h p hpm)
-    rw [this]
-
-example : innerMatchersSafe [⟨[str "4xx", str "500"], [⟨none, 201⟩]⟩, ⟨[], [⟨some 1, 202⟩, ⟨none, 203⟩]⟩] = true := by decide
-
-/-
-A code written with a plus sign passes `strconv.Atoi`, so the adapter accepts it and writes
-`… in [+40]`; CEL has no unary plus, the expression matcher fails to compile and the adapted
-config cannot be loaded.
--/
-theorem adapter_accepts_unloadable_plus_code :
-    (match adapt [⟨[str "+40"], [⟨none, 201⟩]⟩] with | .unloadable => true | _ => false) = true := by decide
+example : (serveAdapted (adapt wBlocks) 404 ⟨0, 0, 1, 0, [], none, none⟩).map (·.status) = some (some 201) := by decide
 
 end CaddyModel.C05
